@@ -131,6 +131,8 @@ static void errfunc(cfg_t *cfg, const char *fmt, va_list ap)
 }
 
 /* ---------- callbacks: the DSL shared with the model's mkOracle ---------- */
+static int pending_errno = -1;	/* ERRNO n: value errno has when the next library call starts */
+#define APPLY_ERRNO() do { if (pending_errno >= 0) { errno = pending_errno; pending_errno = -1; } } while (0)
 static long cbcount;
 static long fail_at = -1;
 
@@ -762,6 +764,8 @@ static void run_line(char *line)
 		free(c);
 	} else if (!strcmp(w[0], "PW") || !strcmp(w[0], "MAXINC")) {
 		/* oracle facts for the model only */
+	} else if (!strcmp(w[0], "ERRNO") && n == 2) {
+		pending_errno = atoi(w[1]);
 	} else if (!strcmp(w[0], "FAILAT") && n == 2) {
 		fail_at = strcmp(w[1], "-") ? atol(w[1]) : -1;
 	} else if ((!strcmp(w[0], "X") || !strcmp(w[0], "XP")) && n == 3) {
@@ -797,6 +801,7 @@ static void run_line(char *line)
 		fds0 = count_fds();
 		op_begin();
 		if (!strcmp(w[0], "PB")) {
+			APPLY_ERRNO();
 			rc = cfg_parse_buf(CTX(1), t2);
 		} else if (!strcmp(w[0], "PF")) {
 			rc = cfg_parse(CTX(1), t2);
@@ -869,6 +874,7 @@ static void run_line(char *line)
 		for (i = 3; i < n; i++)
 			vals[i - 3] = unhex(w[i], NULL);
 		op_begin();
+		APPLY_ERRNO();
 		rc = cfg_setmulti(CTX(1), p, (unsigned int)(n - 3), vals);
 		snprintf(rbuf, sizeof rbuf, "R %d\n", rc);
 		op_end_r(rbuf, NULL);
@@ -881,6 +887,7 @@ static void run_line(char *line)
 
 		NEEDCTX(1);
 		op_begin();
+		APPLY_ERRNO();
 		r = cfg_setopt(CTX(1), cfg_getopt(CTX(1), p), v);
 		snprintf(rbuf, sizeof rbuf, "R %d\n", r ? 0 : -1);
 		op_end_r(rbuf, NULL);
